@@ -88,7 +88,7 @@ def make_archive(case):
         elif sess.get("header") == "encrypted" and pw:
             z.set_encrypted_header(True)
         for k, m in enumerate(sess["members"]):
-            name = f"s{s}/{['a', 'ü', '日本', 'sp ace'][k % 4]}{k}"
+            name = f"s{s}/{['a', 'ü', '日本', 'sp ace', 'e\U0001F600moji', '\U00020BB7x\U00010348'][k % 6]}{k}"
             if m == "dir":
                 p = os.path.join(wd, f"d{s}_{k}")
                 os.makedirs(p, exist_ok=True)
